@@ -25,7 +25,11 @@ Record mcase := mkmcase {
   o_adv : sig;                 (* inspect.signature(method) *)
   o_real : sig;                (* parameters of the compiled function *)
   o_impl : sig;                (* parameters of the implementation (after partial) *)
-  o_calls : list (call * outcome)
+  o_calls : list (call * outcome);
+  (* effects of accepted calls on the REAL method: per call, the class of the object the
+     keywords are for, and per supplied keyword: value given, what the object's __dict__
+     holds under that name afterwards, what its overflow dictionary holds under that name *)
+  o_effects : list (ncls * list (name * Z * option Z * option Z))
 }.
 
 Definition pkind_eqb (a b : pkind) : bool :=
@@ -127,8 +131,19 @@ Fixpoint prefix_sig (a b : sig) : bool :=
 
 Definition shape_ok (c : mcase) : bool := prefix_sig (explicit_obs c) (o_adv c).
 
+(* every supplied keyword reached the place SigSpec.lands names, with the value given *)
+Definition effect_ok (e : ncls * list (name * Z * option Z * option Z)) : bool :=
+  let '(n, l) := e in
+  forallb (fun q =>
+    let '(k, v, oa, oo) := q in
+    match lands n k with
+    | Some PAttr => optz_eqb oa (Some v)
+    | Some POverflow => optz_eqb oo (Some v) && optz_eqb oa None
+    | None => false
+    end) l.
+
 Definition spec_ok (c : mcase) : bool :=
-  shape_ok c && nested_ok c && forallb (call_spec_ok c) (o_calls c).
+  shape_ok c && nested_ok c && forallb (call_spec_ok c) (o_calls c) && forallb effect_ok (o_effects c).
 
 Definition check_case (c : mcase) : nat :=
   if spec_ok c then (if model_agrees c then 0%nat else 1%nat) else 2%nat.
@@ -139,10 +154,13 @@ Fixpoint first_bad (c : mcase) (l : list (call * outcome)) (i : nat) : nat :=
   | [] => i
   | p :: t => if call_spec_ok c p then first_bad c t (S i) else i
   end.
-(* 1: shape, 2: nested keywords, 3 + i: the i-th call *)
+(* 1: shape, 2: nested keywords, 3 + i: the i-th call, 3 + #calls + j: the j-th effect *)
 Definition spec_fail_where (c : mcase) : nat :=
   if negb (shape_ok c) then 1%nat else if negb (nested_ok c) then 2%nat
-  else (3 + first_bad c (o_calls c) 0)%nat.
+  else if negb (forallb (call_spec_ok c) (o_calls c)) then (3 + first_bad c (o_calls c) 0)%nat
+  else (3 + length (o_calls c) +
+        (fix go (l : list (ncls * list (name * Z * option Z * option Z))) (j : nat) :=
+           match l with [] => j | e :: t => if effect_ok e then go t (S j) else j end) (o_effects c) 0%nat)%nat.
 (* 1: build, 2: advertised, 3: compiled, 4: compatibility, 5 + i: the i-th call *)
 Definition model_fail_where (c : mcase) : nat :=
   match build_method (k_kind c) (k_nested c) with
